@@ -388,6 +388,12 @@ Proof. exact accept_from4. Qed.
 Theorem C12_accept_1d_2d : forall d, simpson_accepts d = true -> simpson2d_accepts d = true.
 Proof. exact accept_1d_2d. Qed.
 
+(* the number of divisions actually used stays within 2 of the requested divs (1-D: d-2..d, 2-D: d..d+1), so the textbook
+   error bound may be computed from the REQUESTED value *)
+Theorem C12_norm_bounds : forall d, (4 <= d)%Z ->
+  (d - 2 <= simpson_norm d <= d)%Z /\ (d <= simpson2d_norm d <= d + 1)%Z.
+Proof. exact norm_bounds. Qed.
+
 (* accepted parameters give an even number of divisions >= 2 in both forms *)
 Theorem C12_accept_norm : forall d,
   (simpson_accepts d = true -> Z.even (simpson_norm d) = true /\ (2 <= simpson_norm d)%Z) /\
@@ -466,4 +472,5 @@ Print Assumptions C12_adaptive_alias_family.
 Print Assumptions C12_adaptive_alias_family_result.
 Print Assumptions C12_accept_from4.
 Print Assumptions C12_accept_1d_2d.
+Print Assumptions C12_norm_bounds.
 Print Assumptions C12_accept_norm.
